@@ -270,6 +270,12 @@ func fieldLoadsNamed(p *Prog, pred func(tn, f string) bool) []ssa.Value {
 func isLineField(tn, f string) bool { return f == "Line" || f == "LineNumber" || f == "line" }
 
 func checkC18(p *Prog, l *Ledger) {
+	// (a) comments are layout: what is comment ends where the language says (extents rule of C09)
+	if run := exploreScanToken(p); run != nil {
+		checkExtents(p, l, run.m.G, "C18/a-layout/comment-extents")
+	}
+	// (e) parentheses: evaluating a Grouping node does nothing but evaluate its operand
+	checkGroupingTransparent(p, l, "C18/e-parentheses/grouping-transparent")
 	// ---------------- (a) layout
 	{
 		srcs := fieldLoadsNamed(p, isLineField)
@@ -521,4 +527,50 @@ func checkNodeKindTests(p *Prog, l *Ledger, rule string) {
 	}
 	sort.Strings(sites)
 	l.Extra["ast_type_tests_outside_dispatch"] = sites
+}
+
+
+// checkGroupingTransparent: on every path, eval of a parenthesised expression performs exactly one child evaluation — of
+// its operand, in the same environment — and returns that value and signal; no store, definition, report or output on
+// the way (including eval's prologue, which every node passes through: a per-node counter there would make redundant
+// parentheses observable).
+func checkGroupingTransparent(p *Prog, l *Ledger, rule string) {
+	cs := getClauses(p)
+	if !cs.account(l) {
+		return
+	}
+	if cs.Clauses["*ast.Grouping"] == nil {
+		l.Undecide(rule, "eval/Grouping", "", "no Grouping clause")
+		return
+	}
+	// explored with state writes visible (field and global stores are events)
+	m, _ := exploreEvalClause(p, "*ast.Grouping", false, true)
+	mon := Monitor{Init: "before|", Step: func(s string, ev *Event) string {
+		ps := strings.SplitN(s, "|", 2)
+		switch ev.Op {
+		case "flagtest", "niltest", "test":
+			return s
+		case "eval":
+			if ps[0] != "before" {
+				return "!a second evaluation in the Grouping clause: " + ev.String()
+			}
+			if ev.KV["child"] != "e.Expression" || ev.KV["env"] != "env" {
+				return "!the Grouping clause evaluates " + ev.KV["child"] + " in " + ev.KV["env"] + ", not its operand in the current environment"
+			}
+			return "after|" + ev.KV["res"]
+		case "return":
+			if ps[0] == "before" {
+				if ev.KV["r0"] == "nil" {
+					return "" // the guarded exit (error flag already set)
+				}
+				return "!the Grouping clause returns " + ev.KV["r0"] + " without evaluating its operand"
+			}
+			if (ev.KV["r0"] == ps[1]+".val" || ev.KV["r0"] == "nil") && (ev.KV["r1"] == ps[1]+".sig" || ev.KV["r1.Type"] == "0") {
+				return ""
+			}
+			return "!the Grouping clause returns (" + ev.KV["r0"] + ", " + ev.KV["r1"] + ") instead of its operand's value and signal"
+		}
+		return "!evaluating a parenthesised expression performs " + ev.String() + ": redundant parentheses become observable"
+	}}
+	runMon(l, rule, "eval/Grouping", m, mon, "flag test, one evaluation of the operand in the same environment, its value and signal returned; nothing else")
 }
